@@ -285,6 +285,9 @@ func init() {
 		dir := filepath.Join(w.OutDir, fmt.Sprintf("cli-w%d", w.Out.Worker))
 		defer os.RemoveAll(dir)
 		return rapidRound(seed, 40, func(rt *rapid.T) {
+			if w.expired() {
+				return
+			}
 			rec := newRecorder(rt)
 			c := DrawCliCase(rec)
 			v, out, f := ExecCliCase(bin, dir, c)
